@@ -17,6 +17,12 @@ MODEL_VO = ["theories/Model/SdoClient.vo"]
 COQ_IMPORTS = "From CV Require Import Model.RefServer Model.SdoClient."
 COQ_RUN = "run_sdoclient"
 COQ_CASE_TYPE = "sdo_case"
+ANCHORS = [("canopen.sdo.client", "SdoClient.send_request"), ("canopen.sdo.client", "SdoClient.read_response"),
+           ("canopen.sdo.client", "SdoClient.request_response"), ("canopen.sdo.client", "SdoClient.abort"),
+           ("canopen.sdo.client", "SdoClient.upload"), ("canopen.sdo.client", "SdoClient.download"),
+           ("canopen.sdo.client", "SdoClient.open"), ("canopen.sdo.client", "ReadableStream"),
+           ("canopen.sdo.client", "WritableStream"), ("canopen.objectdictionary", "ODVariable.__len__"),
+           ("canopen.objectdictionary", "ObjectDictionary.get_variable")]
 RULE = ("a case is a sequence of 1..5 transfers on one client and one reference server; observed: result of every "
         "transfer, complete frame trace (requests and responses), violation count of the reference server, final store; "
         "every length 0..64 x {download, forced segmentation, open unbuffered with/without size, open buffering 7/1024, "
